@@ -642,6 +642,106 @@ func (i *interpreter) reflectExternals() map[string]externalFn {
 			*cell = zero(t)
 			return rvalue{t: types.NewPointer(t), v: cell}
 		},
+		"reflect.Indirect": func(fr *frame, a []value) value {
+			r := a[0].(rvalue)
+			if kindOfR(r) != reflect.Ptr {
+				return r
+			}
+			p := r.get().(*value)
+			if p == nil {
+				return rvalue{}
+			}
+			return rvalue{t: r.t.Underlying().(*types.Pointer).Elem(), addr: p, ro: r.ro}
+		},
+		"reflect.MakeMap": func(fr *frame, a []value) value {
+			t := a[0].(iface).v.(rtype).t
+			m := makeMap(t.Underlying().(*types.Map).Key(), 0).(*omap)
+			m.elemT = t.Underlying().(*types.Map).Elem()
+			return rvalue{t: t, v: m}
+		},
+		"reflect.MakeSlice": func(fr *frame, a []value) value {
+			t := a[0].(iface).v.(rtype).t
+			n, c := int(asInt64(a[1])), int(asInt64(a[2]))
+			if n < 0 || c < n {
+				panic(reflectPanic("reflect.MakeSlice: len > cap or negative"))
+			}
+			s := make([]value, c)
+			for k := range s {
+				s[k] = zero(t.Underlying().(*types.Slice).Elem())
+			}
+			return rvalue{t: t, v: s[:n]}
+		},
+		"reflect.Append": func(fr *frame, a []value) value {
+			r := a[0].(rvalue)
+			mustBe(r, "reflect.Append", reflect.Slice)
+			et := r.t.Underlying().(*types.Slice).Elem()
+			s := r.get().([]value)
+			for _, x := range a[1].([]value) {
+				xv := x.(rvalue)
+				if !xv.valid() || !types.AssignableTo(xv.t, et) {
+					panic(reflectPanic("reflect.Append: value is not assignable to the element type"))
+				}
+				s = append(s, boxFor(et, xv))
+			}
+			return rvalue{t: r.t, v: s}
+		},
+		"(reflect.Value).Addr": func(fr *frame, a []value) value {
+			r := a[0].(rvalue)
+			if r.addr == nil {
+				panic(reflectPanic("reflect.Value.Addr of unaddressable value"))
+			}
+			return rvalue{t: types.NewPointer(r.t), v: r.addr, ro: r.ro}
+		},
+		"(reflect.Value).Convert": func(fr *frame, a []value) value {
+			r := a[0].(rvalue)
+			t := a[1].(iface).v.(rtype).t
+			if !r.valid() {
+				panic(valueError("reflect.Value.Convert", reflect.Invalid))
+			}
+			if !types.ConvertibleTo(r.t, t) {
+				panic(reflectPanic("reflect.Value.Convert: value of type %s cannot be converted to type %s", typeString(r.t), typeString(t)))
+			}
+			if _, ok := t.Underlying().(*types.Basic); ok {
+				if _, ok := r.t.Underlying().(*types.Basic); ok {
+					return rvalue{t: t, v: conv(t, r.t, r.get())}
+				}
+			}
+			if isIface(t) {
+				return rvalue{t: t, v: boxFor(t, r)}
+			}
+			return rvalue{t: t, v: r.get()}
+		},
+		"(reflect.Value).Slice": func(fr *frame, a []value) value {
+			r := a[0].(rvalue)
+			k := mustBe(r, "reflect.Value.Slice", reflect.Slice, reflect.String)
+			lo, hi := int(asInt64(a[1])), int(asInt64(a[2]))
+			if k == reflect.String {
+				s := r.get().(string)
+				if lo < 0 || hi < lo || hi > len(s) {
+					panic(reflectPanic("reflect.Value.Slice: string slice index out of bounds"))
+				}
+				return rvalue{t: r.t, v: s[lo:hi]}
+			}
+			s := r.get().([]value)
+			if lo < 0 || hi < lo || hi > cap(s) {
+				panic(reflectPanic("reflect.Value.Slice: slice index out of bounds"))
+			}
+			return rvalue{t: r.t, v: s[lo:hi]}
+		},
+		"(reflect.Value).NumMethod": func(fr *frame, a []value) value {
+			r := a[0].(rvalue)
+			if !r.valid() {
+				panic(valueError("reflect.Value.NumMethod", reflect.Invalid))
+			}
+			n := 0
+			ms := fr.i.prog.MethodSets.MethodSet(r.t)
+			for k := 0; k < ms.Len(); k++ {
+				if ms.At(k).Obj().Exported() {
+					n++
+				}
+			}
+			return n
+		},
 		"(reflect.Kind).String": func(fr *frame, a []value) value {
 			return reflect.Kind(asInt64(a[0])).String()
 		},
@@ -884,6 +984,40 @@ func (m *rtypeMethod) call(i *interpreter, args []value) value {
 	case "Key":
 		if u, ok := t.Underlying().(*types.Map); ok {
 			return i.reflectTypeIface(u.Key())
+		}
+		panic(bad())
+	case "AssignableTo":
+		return types.AssignableTo(t, args[0].(iface).v.(rtype).t)
+	case "ConvertibleTo":
+		return types.ConvertibleTo(t, args[0].(iface).v.(rtype).t)
+	case "Comparable":
+		return types.Comparable(t)
+	case "PkgPath":
+		if n, ok := t.(*types.Named); ok && n.Obj().Pkg() != nil {
+			return n.Obj().Pkg().Path()
+		}
+		return ""
+	case "NumMethod":
+		n := 0
+		ms := i.prog.MethodSets.MethodSet(t)
+		for k := 0; k < ms.Len(); k++ {
+			if ms.At(k).Obj().Exported() {
+				n++
+			}
+		}
+		return n
+	case "Out":
+		if u, ok := t.Underlying().(*types.Signature); ok {
+			k := int(asInt64(args[0]))
+			if k < 0 || k >= u.Results().Len() {
+				panic(runtimePanic(fmt.Sprintf("index out of range [%d] with length %d", k, u.Results().Len())))
+			}
+			return i.reflectTypeIface(u.Results().At(k).Type())
+		}
+		panic(bad())
+	case "IsVariadic":
+		if u, ok := t.Underlying().(*types.Signature); ok {
+			return u.Variadic()
 		}
 		panic(bad())
 	case "NumIn":
